@@ -93,7 +93,8 @@ def gen_case(r, k):
     sigma = r.choice([None, 3.0, 3.0, 2.0, 1.5, 2.5])
     maxiters = r.choice([1, 2, 3, 10, 10])
     est = r.choice(['mean', 'median', 'sextractor', 'sextractor'])
-    return dict(ny=ny, nx=nx, by=by, bx=bx, data=data, mask=mask, cov=cov, pct=pct, sigma=sigma, maxiters=maxiters, est=est)
+    return dict(ny=ny, nx=nx, by=by, bx=bx, data=data, mask=mask, cov=cov, pct=pct, sigma=sigma, maxiters=maxiters, est=est,
+                rms_own_clip=r.choice([None, None, 1.0, 1.5]))
 
 
 def replay_of(c, **extra):
@@ -101,7 +102,7 @@ def replay_of(c, **extra):
          'mask': None if c['mask'] is None else c['mask'].astype(int).tolist(),
          'coverage_mask': None if c['cov'] is None else c['cov'].astype(int).tolist(),
          'exclude_percentile': c['pct'], 'sigma_clip': None if c['sigma'] is None else [c['sigma'], c['maxiters']],
-         'bkg_estimator': c['est'], 'filter_size': [1, 1]}
+         'bkg_estimator': c['est'], 'filter_size': [1, 1], 'estimators_own_sigma_clip': c.get('rms_own_clip')}
     d.update(extra)
     return d
 
@@ -112,6 +113,12 @@ def make_b2d(c, data=None, **kw):
     est = {'mean': MeanBackground, 'median': MedianBackground, 'sextractor': SExtractorBackground}[c['est']]()
     sc = None if c['sigma'] is None else SigmaClip(sigma=c['sigma'], maxiters=c['maxiters'])
     args = dict(mask=c['mask'], coverage_mask=c['cov'], exclude_percentile=c['pct'], filter_size=(1, 1), sigma_clip=sc, bkg_estimator=est)
+    if c.get('rms_own_clip'):
+        # estimators that come with a sigma clip of their own (stronger than Background2D's): Background2D's clip is the only one
+        # that counts - the estimator objects are applied to the already selected pixels
+        from photutils.background import StdBackgroundRMS
+        args['bkgrms_estimator'] = StdBackgroundRMS(sigma_clip=SigmaClip(sigma=c['rms_own_clip'], maxiters=10))
+        est.sigma_clip = SigmaClip(sigma=c['rms_own_clip'], maxiters=10)
     args.update(kw)
     with warnings.catch_warnings():
         warnings.simplefilter('ignore')
